@@ -24,6 +24,8 @@ def fixturePolicy (ns name kind : String) : Policy :=
   | "oidc" => ⟨ns, name, ["oidc-" ++ name], "", []⟩
   | "apikey" => ⟨ns, name, ["api-" ++ name], "", []⟩
   | "waf" => ⟨ns, name, [], "ap-" ++ name, ["lc-" ++ name]⟩
+  | "wafold" => ⟨ns, name, [], "ap-" ++ name, ["lc-" ++ name]⟩
+  | "wafboth" => ⟨ns, name, [], "ap-" ++ name, ["lc-" ++ name, "lc2-" ++ name]⟩      -- the list wins over the deprecated field
   | _ => ⟨ns, name, [], "", []⟩
 
 def run (kind : String) (fs : List String) : Option (String × String) :=
